@@ -545,6 +545,36 @@ impl Shape {
     pub fn matches(model: &Shape, read: &Shape) -> bool {
         Shape::matches_flat(&model.flatten(), &read.flatten())
     }
+    /// path and content of the first difference (diagnostics only)
+    pub fn first_diff(model: &Shape, read: &Shape) -> String {
+        fn go(m: &Shape, r: &Shape, path: &mut Vec<String>) -> Option<String> {
+            if Shape::matches_flat(m, r) {
+                return None;
+            }
+            let kids: Option<(&Vec<Shape>, &Vec<Shape>)> = match (m, r) {
+                (Shape::Seq(a, false), Shape::Seq(b, _)) if a.len() == b.len() => Some((a, b)),
+                (Shape::Fields(a), Shape::Fields(b)) if a.len() == b.len() => Some((a, b)),
+                (Shape::Variant(i, a), Shape::Variant(j, b)) if i == j && a.len() == b.len() => Some((a, b)),
+                _ => None,
+            };
+            if let Some((a, b)) = kids {
+                for (k, (x, y)) in a.iter().zip(b).enumerate() {
+                    path.push(k.to_string());
+                    if let Some(d) = go(x, y, path) {
+                        return Some(d);
+                    }
+                    path.pop();
+                }
+            }
+            if let (Shape::Opt(Some(a)), Shape::Opt(Some(b))) = (m, r) {
+                path.push("some".into());
+                return go(a, b, path);
+            }
+            let cut = |s: String| s.chars().take(300).collect::<String>();
+            Some(format!("at /{}: expected {} read {}", path.join("/"), cut(format!("{:?}", m)), cut(format!("{:?}", r))))
+        }
+        go(&model.flatten(), &read.flatten(), &mut vec![]).unwrap_or_default()
+    }
     fn matches_flat(model: &Shape, read: &Shape) -> bool {
         match (model, read) {
             (Shape::Seq(a, unordered), Shape::Seq(b, _)) => {
@@ -552,11 +582,16 @@ impl Shape {
                     return false;
                 }
                 if *unordered {
-                    let mut a2: Vec<Shape> = a.iter().map(|x| x.normal()).collect();
-                    let mut b2: Vec<Shape> = b.iter().map(|x| x.normal()).collect();
-                    a2.sort();
-                    b2.sort();
-                    a2 == b2
+                    // equal up to a permutation (elements may themselves contain unordered
+                    // containers, so pair them up with this relation; it is an equivalence, greedy is exact)
+                    let mut used = vec![false; b.len()];
+                    a.iter().all(|x| match (0..b.len()).find(|j| !used[*j] && Shape::matches_flat(x, &b[*j])) {
+                        Some(j) => {
+                            used[j] = true;
+                            true
+                        }
+                        None => false,
+                    })
                 } else {
                     a.iter().zip(b).all(|(x, y)| Shape::matches_flat(x, y))
                 }
@@ -595,13 +630,28 @@ pub struct SchemaReader<'a> {
     /// name of the innermost struct/enum node being read when an error occurred
     pub err_at: Option<String>,
     pub frames: Vec<*const RSchema>,
+    /// Substitutions for schema nodes that are *known* to misdescribe their bytes (open known
+    /// findings of C12, see `KNOWN_PATCHES`): when a name is listed here and a node has exactly
+    /// the misdescribing shape, the reader parses the true layout instead, so that the search
+    /// continues behind the known defect. The check re-runs the reader with each used patch
+    /// switched off to reproduce (and attribute) the known finding.
+    pub patches: std::collections::BTreeSet<&'static str>,
+    /// patches that were actually applied during this read
+    pub patch_hits: std::collections::BTreeSet<&'static str>,
     stack: Vec<&'a RSchema>,
     budget: usize,
 }
 
+/// Names of the schema nodes with a known misdescription (see known_findings.jsonl, C12).
+pub const KNOWN_PATCHES: [&str; 5] = ["BitVec", "BitSet", "Result", "SocketAddr", "enum_with_more_than_256_variants"];
+
+fn is_usize_prim(s: &RSchema) -> bool {
+    matches!(s, RSchema::Prim(RPrim::U64, _))
+}
+
 impl<'a> SchemaReader<'a> {
     pub fn new(frames: Vec<*const RSchema>) -> SchemaReader<'a> {
-        SchemaReader { err_at: None, frames, stack: vec![], budget: 2_000_000 }
+        SchemaReader { err_at: None, frames, patches: Default::default(), patch_hits: Default::default(), stack: vec![], budget: 2_000_000 }
     }
     pub fn read(&mut self, s: &'a RSchema, c: &mut Cur) -> Result<Shape, String> {
         if self.budget == 0 {
@@ -637,7 +687,79 @@ impl<'a> SchemaReader<'a> {
     fn read_inner(&mut self, s: &'a RSchema, c: &mut Cur) -> Result<Shape, String> {
         let eof = |e: crate::enc::DecErr| format!("{:?}", e);
         match s {
+            RSchema::Struct { fields, name, .. }
+                if (name == "BitVec" || name == "BitSet")
+                    && self.patches.contains(name.as_str())
+                    && fields.len() == 3
+                    && is_usize_prim(&fields[0].value)
+                    && is_usize_prim(&fields[1].value)
+                    && matches!(&fields[2].value, RSchema::Vector(i, _) if matches!(**i, RSchema::Prim(RPrim::U8, _))) =>
+            {
+                // true layout: u64 bits, u64 (bytes | 1<<63), raw buffer without length prefix
+                let save = c.pos;
+                let bits = c.take(8).map_err(eof)?.to_vec();
+                let nb = c.uint(8).map_err(eof)? as u64;
+                if nb & (1 << 63) == 0 {
+                    // legacy layout = what the schema says
+                    c.pos = save;
+                    return Ok(Shape::Fields(self.fields(fields, c)?));
+                }
+                self.patch_hits.insert(if name == "BitVec" { "BitVec" } else { "BitSet" });
+                let n = (nb & !(1 << 63)) as usize;
+                let buf = c.take(n).map_err(eof)?;
+                Ok(Shape::Fields(vec![Shape::Prim(bits), Shape::Prim(nb.to_le_bytes().to_vec()), Shape::Seq(buf.iter().map(|b| Shape::Prim(vec![*b])).collect(), false)]))
+            }
             RSchema::Struct { fields, .. } => Ok(Shape::Fields(self.fields(fields, c)?)),
+            RSchema::Enum { variants, discr_size, name, .. }
+                if name == "Result" && self.patches.contains("Result") && *discr_size == 1 && variants.len() == 2 && variants.iter().all(|v| v.discr == 0) =>
+            {
+                // true tags: 1 = Ok (first variant), 0 = Err (second variant)
+                let d = c.uint(1).map_err(eof)?;
+                let vi = match d {
+                    1 => 0,
+                    0 => 1,
+                    x => return Err(format!("result tag {}", x)),
+                };
+                self.patch_hits.insert("Result");
+                Ok(Shape::Variant(vi as u32, self.fields(&variants[vi].fields, c)?))
+            }
+            RSchema::Enum { variants, discr_size, name, .. }
+                if name == "SocketAddr"
+                    && self.patches.contains("SocketAddr")
+                    && *discr_size == 1
+                    && variants.len() == 2
+                    && variants.iter().all(|v| v.fields.len() == 1 && matches!(v.fields[0].value, RSchema::Prim(_, _))) =>
+            {
+                // true layout: tag, u16 port, address, (V6: u32 flowinfo, u32 scope id)
+                let d = c.uint(1).map_err(eof)? as usize;
+                if d > 1 {
+                    return Err(format!("socket addr tag {}", d));
+                }
+                self.patch_hits.insert("SocketAddr");
+                let port = c.take(2).map_err(eof)?.to_vec();
+                let mut fs = vec![Shape::Prim(port)];
+                fs.extend(self.fields(&variants[d].fields, c)?);
+                if d == 1 {
+                    fs.push(Shape::Prim(c.take(4).map_err(eof)?.to_vec()));
+                    fs.push(Shape::Prim(c.take(4).map_err(eof)?.to_vec()));
+                }
+                Ok(Shape::Variant(d as u32, fs))
+            }
+            RSchema::Enum { variants, discr_size, .. }
+                if variants.len() > 256 && *discr_size == 2 && self.patches.contains("enum_with_more_than_256_variants") =>
+            {
+                // true numbering: the wire discriminant is the variant index (the schema stores it in a u8)
+                let d = c.uint(2).map_err(eof)? as usize;
+                if d >= variants.len() {
+                    return Err(format!("discriminant {} of {} variants", d, variants.len()));
+                }
+                if d >= 256 {
+                    self.patch_hits.insert("enum_with_more_than_256_variants");
+                } else if (0..variants.len()).filter(|i| variants[*i].discr as usize == d).count() != 1 {
+                    self.patch_hits.insert("enum_with_more_than_256_variants");
+                }
+                Ok(Shape::Variant(d as u32, self.fields(&variants[d].fields, c)?))
+            }
             RSchema::Enum { variants, discr_size, name, .. } => {
                 if ![1u8, 2, 4].contains(discr_size) {
                     return Err(format!("enum {} discriminant size {}", name, discr_size));
